@@ -80,3 +80,47 @@ func VerifH15() {
 	nd.SetPreemptionBound(0)
 	nd.Reach("H15.end")
 }
+
+// VerifH15c: the cleanup re-activating a directory while another goroutine writes. A content
+// directory that reached the limit has been rotated out of the registry; a version whose content
+// lies in it is superseded; then the collector (with its physical deletions, which put the
+// directory back into the registry) runs concurrently with a Set that reads the registry.
+func VerifH15c() {
+	P := 1
+	if nd.Tier() == 1 {
+		P = 2
+	}
+	nd.Bound("H15c.preemption_bound", P)
+	nd.RaceMonitor(true)
+	concreteCounter = true
+	cfg := stdConfig("r1")
+	w := newWorld(cfg, []string{"a", "b"})
+	// the first write creates the directory d1 ...
+	nd.Assert(w.d.Set(ctx, "a", w.freshVal()) == nil, "H15c.first-write")
+	var d1 string
+	for _, p := range verifenv.FS.Children("r1") {
+		d1 = "r1/" + p
+	}
+	// ... which then fills up (other files appear in it): the next write rotates it out
+	verifenv.ExtraEntries = func(dir string) uint64 {
+		if dir == d1 {
+			return 100
+		}
+		return 0
+	}
+	nd.Assert(w.d.Set(ctx, "b", w.freshVal()) == nil, "H15c.rotating-write")
+	// the version in d1 is superseded, and d1 has room again
+	nd.Assert(w.d.Set(ctx, "a", w.freshVal()) == nil, "H15c.overwrite")
+	verifenv.ExtraEntries = nil
+	v := w.freshVal()
+	nd.SpawnRunsFirst(P == 1)
+	nd.SetPreemptionBound(P)
+	go func() {
+		_ = w.c.Cleaner().DeleteOld(ctx)
+		verifenv.RunJobs()
+	}()
+	_ = w.d.Set(ctx, "b", v)
+	nd.JoinAll()
+	nd.SetPreemptionBound(0)
+	nd.Reach("H15c.end")
+}
